@@ -40,6 +40,7 @@ inductive EvQ
   | handle
   | create (w : Wid)
   | newAddr (w : Wid) (stk : Bool)
+  | recvTx (tx : Tx)              -- an unconfirmed transaction reaches the follower (below the sync-height gate)
   | crash
   deriving Inhabited
 
@@ -64,6 +65,9 @@ def stepQ (st : Static) (n : Nat) (crashing : Bool) (x : SysQ) : EvQ → SysQ
     match useWallet x.P x.V w with
     | none => x
     | some v => let r := (opNewAddr (envAt st x.chain) n n n stk).run none x.P v; { x with P := r.P, V := r.V }
+  | .recvTx tx =>
+    let r := Model.Persist.recvTx (envAt st x.chain) n n none tx x.P x.V
+    { x with P := r.P, V := r.V }
   | .crash =>
     if crashing then
       let r := Model.Persist.crash (envAt st x.chain) n x.P
@@ -148,6 +152,7 @@ def skStep (st : Static) (k : Skel) : EvQ → Skel
     | some r => { k with ks := AMap.put k.ks w (issueRec st w r) }
     | none => k
   | .handle => k
+  | .recvTx _ => k
   | .crash => k
 
 def skRun (st : Static) (k : Skel) (evs : List EvQ) : Skel := evs.foldl (skStep st) k
